@@ -28,6 +28,7 @@ class Impl6(H5.Impl):
         self.bs = list(BS)
         self.stack_dim = len(BS)
         self.allow_params = False  # (the memoised reads of a TensorDictParams are those of its content)
+        self.allow_nts = False     # (non-tensor entries are leaves of the C06 content model)
         self.nt_no = {}            # id(non tensor object) -> obj number
         self.fresh_nt = set()      # (node id, key) whose entry is still a NonTensorData (first indexed write rebinds)
         self.results = set()       # ids of the tensordicts handed out by flatten_keys
